@@ -84,6 +84,11 @@ pub trait De: Sized {
         ensures Self::dec(old(raw).rem()) is Some ==> r is Ok && r->Ok_0 == Self::dec(old(raw).rem())->Some_0.0
                     && 0 <= Self::dec(old(raw).rem())->Some_0.1 <= old(raw).rem().len()
                     && final(raw).rem() == old(raw).rem().skip(Self::dec(old(raw).rem())->Some_0.1);
+    /// what is accepted starts with a typed token that is not a `special` (no ledger item is encoded as null / bool / break), so
+    /// "is the next token a break?" is decidable in front of any item
+    proof fn lemma_dec_head(rem: Seq<Tok>)
+        requires Self::dec(rem) is Some
+        ensures rem.len() > 0, typed(rem[0]), !(rem[0] is Special);
 }
 /// `x / null` fields: traits.rs `impl<T: Deserialize> DeserializeNullable for T`
 pub open spec fn dec_nullable<T: De>(rem: Seq<Tok>) -> Option<(Option<T>, int)> {
@@ -107,6 +112,7 @@ macro_rules! de_opaque { ($($n:ident),* $(,)?) => { verus!{ $(
     impl De for $n {
         uninterp spec fn dec(rem: Seq<Tok>) -> Option<(Self, int)>;
         #[verifier::external_body] fn deserialize(raw: &mut Deserializer) -> (r: Result<Self, DeserializeError>) { unimplemented!() }
+        #[verifier::external_body] proof fn lemma_dec_head(rem: Seq<Tok>) { }
     }
     impl RoundTrip for $n {
         #[verifier::external_body] proof fn lemma_rt(x: Self, rest: Seq<Tok>) { }
